@@ -23,7 +23,7 @@ import prims_common as pc
 COMBOS = [("mep", "std"), ("mep", "alps"), ("team", "std"), ("team", "alps"), ("ga", "std"), ("ga", "alps"), ("de", "de"), ("de", "dealps")]
 FIELDS = ["kind", "strat", "mode", "seed", "individuals", "min_individuals", "layers", "tournament", "mate_zone",
           "elitism", "age_gap", "p_same", "p_cross", "p_mutation", "brood", "generations", "cache", "eval",
-          "evalmod", "shake_every", "max_stuck", "shake0"]
+          "evalmod", "shake_every", "max_stuck", "shake0", "reruns"]
 
 
 def p3(x):
@@ -32,7 +32,7 @@ def p3(x):
 
 
 def case_line(c):
-    return "run " + " ".join(str(c.get(f, 4294967295) if f == "max_stuck" else c.get(f, 0) if f == "shake0" else c[f]) for f in FIELDS)
+    return "run " + " ".join(str(c.get(f, 4294967295) if f == "max_stuck" else c.get(f, 0) if f in ("shake0", "reruns") else c[f]) for f in FIELDS)
 
 
 def envm(c):
@@ -67,6 +67,7 @@ def gen_config(rng, mode=None, combo=None, big=False):
         "evalmod": rng.choice([1, 2, 3, 7, 1000]), "shake_every": rng.choice([0, 0, 0, 2, 3]),
         "max_stuck": rng.choice([4294967295, 4294967295, 0, 1, 2, 3]),
         "shake0": rng.choice([0, 0, 1]),
+        "reruns": rng.choice([0, 0, 1, 2]) if mode == "whole" else 0,
     }
     if mode == "search":
         # search::run tunes the environment itself and runs twice; keep it small
@@ -102,6 +103,14 @@ def gen_cases(ck):
                 c.update(shake0=shake0, shake_every=every, eval=ev, evalmod=1000, generations=max(2, c["generations"]),
                          max_stuck=4294967295)
                 cases.append(c)
+    # histories of runs: evolution::run called again on the SAME object (a converged population: few
+    # fitness values, so that the later run does not improve at once); every run starts from a clean summary
+    for combo in COMBOS:
+        for _ in range(2):
+            c = gen_config(rng, "whole", combo)
+            c.update(reruns=2, evalmod=rng.choice([2, 3]), eval="h", generations=max(3, c["generations"]),
+                     shake_every=0, shake0=0, max_stuck=4294967295)
+            cases.append(c)
     # nearly equal, distinct fitness values (relative distance 1e-11) with elitism and a tournament of one:
     # the individual replaced is the one selected, so a tolerance in the elitist test lowers the maximum
     for combo in [cb for cb in COMBOS if cb[1] in ("std", "de")]:
@@ -214,8 +223,8 @@ def gen_tune(rng, shape=None, blank=False):
     t.update(code=pick([0, 0, 0, 2, 10, 100, 200]), patch=pick([0, 0, 0, 1, 5]), elitism=pick([-1, -1, 0, 1]),
              p_mutation=pick([-1, -1, 0, 0.04, 1]), p_cross=pick([-1, -1, 0, 0.5, 1]), brood=pick([0, 0, 1, 3]),
              layers=pick([0, 0, 0, 1, 3, 6, 20]), individuals=pick([0, 0, 0, 4, 8, 30, 100, 500]),
-             min_individuals=pick([0, 0, 0, 2, 5]), tournament=pick([0, 0, 0, 1, 2, 5, 7]),
-             mate_zone=pick([0, 0, 0, 3, 20, 100]), generations=pick([0, 0, 50]),
+             min_individuals=pick([0, 0, 0, 2, 5, 40, 150]), tournament=pick([0, 0, 0, 1, 2, 5, 7, 40, 120]),
+             mate_zone=pick([0, 0, 0, 3, 20, 100, 1000]), generations=pick([0, 0, 50]),
              max_stuck_time=pick([-1, -1, 10]), dss=pick([-1, -1, -1, 2]), validation=pick([-1, -1, -1, 30]))
     return t
 
@@ -330,6 +339,17 @@ def run(ck):
                 t = gen_tune(ck.rng, ("src", strat), blank=True)
                 t.update(validator=v, rows=120)
                 tcases.append(t)      # the percentage / dss left open with the strategy that needs it
+        # a user setting LARGER than the default / dataset-derived value of a parameter left open
+        for shape in TUNE_SHAPES:
+            for field, vals in (("tournament", [6, 40, 120, 1000]), ("min_individuals", [3, 40, 150, 1000]),
+                                ("patch", [99, 100, 150]), ("mate_zone", [1, 2, 4])):
+                for v in vals:
+                    for rows in ((9, 10, 120, 1000) if shape[0] == "src" else (0,)):
+                        t = gen_tune(ck.rng, shape, blank=True)
+                        t[field] = v
+                        t["rows"] = rows
+                        t["layers"] = ck.rng.choice([0, 0, 3, 20])
+                        tcases.append(t)
         tcases += [gen_tune(ck.rng) for _ in range(40000 if ck.thorough else 400)]
     # which tuning code does the tree have?  (environment::reconcile = repair of tune_valid_size_conflict)
     with open(os.path.join(L["snap"], "kernel", "search.tcc")) as f:
